@@ -2,11 +2,44 @@
 import ast
 
 from sa import core
+from sa import pat
 from sa import pycfg
 from sa import setalg
 from sa.formula import atom, implies, TRUE
 
 CFG = 'malt/pyct/cfg.py'
+
+
+SCOPE_ATTRS = {'read': 'READ', 'modified': 'MODIFIED', 'deleted': 'DELETED',
+               'bound': 'BOUND', 'globals': 'GLOBALS', 'nonlocals': 'NONLOCALS',
+               'params': 'PARAMS', 'annotations': 'ANNOTATIONS'}
+
+
+def df_atoms(fi, extra=None):
+  """Atom naming for a dataflow visit_node, independent of local names:
+  <statement scope>.<set>  -> READ / MODIFIED / ...   (scope = the SCOPE annotation)
+  <function scope>.<set>   -> FN.read / ...           (ARGS_AND_BODY_SCOPE annotation)
+  self.out[<neighbour>]    -> NB_OUT ;  self.in_[<neighbour>] -> NB_IN"""
+  aliases = setalg.single_assignment_aliases(fi.node)
+  node_p = fi.params()[0] if fi.params() else 'node'
+
+  def at(e):
+    if extra is not None:
+      r = extra(e, aliases)
+      if r is not None:
+        return r
+    if isinstance(e, ast.Subscript) and isinstance(e.slice, ast.Name) and \
+        e.slice.id != node_p and core.norm(e.value) in ('self.out', 'self.in_'):
+      return 'NB_OUT' if core.norm(e.value) == 'self.out' else 'NB_IN'
+    if isinstance(e, ast.Attribute) and e.attr in SCOPE_ATTRS:
+      t = setalg.alias_text(e.value, aliases)
+      if 'ARGS_AND_BODY_SCOPE' in t:
+        return 'FN.' + e.attr
+      if 'Static.SCOPE' in t:
+        return SCOPE_ATTRS[e.attr]
+    return None
+
+  return at
 
 
 def eval_visit_node(model, fi, atom_of, state_classes=()):
@@ -102,19 +135,40 @@ def check_driver(model, rep, rule):
                                                        ast.Return))]
     facts['visit_node_per_iteration'] = rng
     facts['jumps'] = [core.norm(j) for j in jumps]
-    ok = rng == (1, 1) and not jumps and core.norm(lp.test) == 'open_'
-    # re-enqueue rule
+    wl_name = core.norm(lp.test)
+    ok = rng == (1, 1) and not jumps and isinstance(lp.test, ast.Name)
+    # re-enqueue rule: the loop over the neighbours (next / prev)
+    nb = {core.norm(n.targets[0]) for n in ast.walk(lp) if isinstance(n, ast.Assign)
+          and core.norm(n.value) in ('node.next', 'node.prev') or (
+              isinstance(n, ast.Assign) and isinstance(n.value, ast.Attribute) and
+              n.value.attr in ('next', 'prev'))}
     inner = [n for n in ast.walk(lp) if isinstance(n, ast.For) and
-             core.norm(n.iter) == 'children']
+             core.norm(n.iter) in nb]
     ok = ok and len(inner) == 1
     if ok:
       ilp = inner[0]
 
+      rv = [core.norm(n.targets[0]) for n in ast.walk(lp) if isinstance(n, ast.Assign)
+            and isinstance(n.value, ast.Call) and core.norm(n.value.func) ==
+            'self.visit_node']
+      closed_adds = [core.norm(c.func.value) for c in ast.walk(lp)
+                     if isinstance(c, ast.Call) and isinstance(c.func, ast.Attribute)
+                     and c.func.attr == 'add' and c.args and core.norm(c.args[0]) ==
+                     (core.norm([n for n in ast.walk(lp) if isinstance(n, ast.Assign)
+                                 and isinstance(n.value, ast.Call) and isinstance(
+                                     n.value.func, ast.Attribute) and
+                                 n.value.func.attr == 'pop'][0].targets[0])
+                      if any(isinstance(n, ast.Assign) and isinstance(n.value, ast.Call)
+                             and isinstance(n.value.func, ast.Attribute) and
+                             n.value.func.attr == 'pop' for n in ast.walk(lp)) else '')]
+      revisit_name = rv[0] if rv else None
+      closed_name = closed_adds[0] if closed_adds else None
+
       def at(e):
         t = core.norm(e)
-        if t == 'should_revisit':
+        if revisit_name and t == revisit_name:
           return 'REVISIT'
-        if t.endswith(' in closed'):
+        if closed_name and t.endswith(' in ' + closed_name):
           return 'VISITED'
         return None
 
@@ -122,11 +176,11 @@ def check_driver(model, rep, rule):
       conds = []
       for n in ast.walk(ilp):
         if isinstance(n, ast.If) and any(
-            isinstance(c, ast.Call) and core.norm(c.func) == 'open_.append'
+            isinstance(c, ast.Call) and core.norm(c.func) == wl_name + '.append'
             for b in n.body for c in ast.walk(b)):
           conds.append(n.test)
       appends = [c for c in ast.walk(ilp) if isinstance(c, ast.Call) and
-                 core.norm(c.func) == 'open_.append']
+                 core.norm(c.func) == wl_name + '.append']
       facts['append_conditions'] = [core.norm(c) for c in conds]
       if len(appends) == 1 and len(conds) == 1:
         f = formula.bool_formula(conds[0], at)
@@ -137,9 +191,10 @@ def check_driver(model, rep, rule):
         ok = True
       else:
         ok = False
-    src = core.norm(fi.node)
-    ok = ok and 'children = node.next' in src and 'children = node.prev' in src and \
-        'open_ = [self.graph.entry]' in src and 'open_ = list(self.graph.exit)' in src
+    ok = ok and pat.has(fi.node, '_C_ = _N_.next') and pat.has(
+        fi.node, '_C_ = _N_.prev') and pat.has(
+            fi.node, '%s = [self.graph.entry]' % wl_name) and pat.has(
+                fi.node, '%s = list(self.graph.exit)' % wl_name)
   rep.check(ok, rule, '%s:worklist' % fi.site,
             'every dequeued node must be evaluated, and every neighbour '
             're-enqueued whenever the node asked for a revisit or the neighbour '
